@@ -156,6 +156,60 @@ impl<'tcx> Cx<'tcx> {
         ix
     }
 
+    fn const_value_json(&mut self, cv: ConstValue, ty: Ty<'tcx>, depth: usize) -> J {
+        let tcx = self.tcx;
+        if depth > 6 {
+            return J::Null;
+        }
+        match ty.kind() {
+            ty::Bool | ty::Char | ty::Int(_) | ty::Uint(_) => {
+                if let ConstValue::Scalar(rustc_middle::mir::interpret::Scalar::Int(si)) = cv {
+                    let bits = si.to_bits_unchecked();
+                    return match ty.kind() {
+                        ty::Bool => J::O(vec![("t", J::s("bool")), ("v", J::B(bits != 0))]),
+                        ty::Char => J::O(vec![
+                            ("t", J::s("char")),
+                            ("v", J::S(char::from_u32(bits as u32).map(|c| c.to_string()).unwrap_or_default())),
+                        ]),
+                        ty::Int(_) => J::O(vec![("t", J::s("int")), ("v", J::I(si.size().sign_extend(bits)))]),
+                        _ => J::O(vec![("t", J::s("int")), ("v", J::U(bits))]),
+                    };
+                }
+                J::Null
+            }
+            ty::Adt(def, _) => {
+                // NonZero and friends are transparent newtypes with private fields: still destructurable
+                let Some(d) = tcx.try_destructure_mir_constant_for_user_output(cv, ty) else { return J::Null };
+                let vidx = d.variant.unwrap_or(rustc_abi::FIRST_VARIANT);
+                if vidx.as_usize() >= def.variants().len() {
+                    return J::Null;
+                }
+                let v = def.variant(vidx);
+                let mut fields = vec![];
+                for (i, (fcv, fty)) in d.fields.iter().enumerate() {
+                    let name = v.fields.iter().nth(i).map(|f| f.name.to_string()).unwrap_or_else(|| i.to_string());
+                    let val = self.const_value_json(*fcv, *fty, depth + 1);
+                    fields.push(J::O(vec![("name", J::S(name)), ("val", val)]));
+                }
+                J::O(vec![
+                    ("t", J::s("adt")),
+                    ("adt", J::S(self.path(def.did()))),
+                    ("variant", J::S(v.name.to_string())),
+                    ("fields", J::A(fields)),
+                ])
+            }
+            ty::Tuple(_) => {
+                let Some(d) = tcx.try_destructure_mir_constant_for_user_output(cv, ty) else { return J::Null };
+                let mut fields = vec![];
+                for (fcv, fty) in d.fields.iter() {
+                    fields.push(self.const_value_json(*fcv, *fty, depth + 1));
+                }
+                J::O(vec![("t", J::s("tuple")), ("fields", J::A(fields))])
+            }
+            _ => J::Null,
+        }
+    }
+
     /// Evaluate a const item to a str / char / int / bool, if it is monomorphic and of such a type.
     pub fn eval_const(&mut self, did: DefId) -> J {
         let tcx = self.tcx;
@@ -166,6 +220,12 @@ impl<'tcx> Cx<'tcx> {
         let is_str = matches!(ty.kind(), ty::Ref(_, inner, _) if inner.is_str());
         let scalar_ok = matches!(ty.kind(), ty::Bool | ty::Char | ty::Int(_) | ty::Uint(_));
         if !is_str && !scalar_ok {
+            // aggregate constants (`Size(0x10000)`, `Bounded(UnitBound)`, ...): destructure recursively
+            if matches!(ty.kind(), ty::Adt(..) | ty::Tuple(..)) {
+                if let Ok(cv) = tcx.const_eval_poly(did) {
+                    return self.const_value_json(cv, ty, 0);
+                }
+            }
             return J::Null;
         }
         let Ok(val) = tcx.const_eval_poly(did) else { return J::Null };
